@@ -330,7 +330,11 @@ def report(prop, tier, seed, results, known, assumed, t0, verbose):
                                                "z3 4.x/5.x and cvc5 1.0.3 soundness",
                                                "A1 ints mathematical; A2 floats are reals; strings opaque; A7 pydantic models are plain records and field annotations hold"],
             "functions_under_contract": fucs,
-            "assumed_contracts": assumed,
+            # assumed (unverified) contracts that were actually applied at some call site of the functions above, with the
+            # reason each is assumed; dispatch contracts (dynamic dispatch / call sites outside the class) are listed too
+            "assumed_contracts": [{"contract": k, "why": REG.contracts[k].note} for k in assumed
+                                  if any(l.startswith("contract " + k) for l in trusted)],
+            "dispatch_contracts_applied": sorted(l for l in trusted if "dispatch contract" in l),
             "bounded": list(bounded.values()),
             "back_ends": backends, "solver_secs": round(solver_secs, 2),
             "samples": samples,
